@@ -253,6 +253,9 @@ for FullSync<'a, ItemType, OgreAllocatorType, BUFFER_SIZE, MAX_STREAMS> {
     #[inline(always)]
     fn drop_resources(&self, stream_id: u32) {
         self.streams_manager.report_stream_dropped(stream_id);
+        // events this stream left unconsumed must neither be seen by the next stream reusing `stream_id` nor keep their payloads alive
+        let queue = unsafe { self.dispatcher_managers.get_unchecked(stream_id as usize) };
+        while queue.consume_movable().is_some() {}
     }
 }
 
